@@ -212,3 +212,30 @@ package generic
 //@   ensures {C01} notnumber: len(params.Command) == 3 && atoiok(garg(params, 2)) && !gnumok(gval0(params)) ==> result1 != nil && gstore(params)[gkey(params)] == old(gstore(params)[gkey(params)])
 //@   ensures {C01} counted: result1 == nil ==> gnumok(gval0(params)) && has(gstore(params), gkey(params)) && isstr(gstore(params)[gkey(params)].Value) && asstr(gstore(params)[gkey(params)].Value) == itoa(gnum(gval0(params)) - atoi(garg(params, 2))) && bstr(result0) == ":" ++ (itoa(gnum(gval0(params)) - atoi(garg(params, 2))) ++ "\r\n")
 //@   ensures {C01,C20} otherkeys: forall k string :: k != gkey(params) && has(gstore(params), k) ==> old(has(gstore(params), k)) && gstore(params)[k].Value == old(gstore(params)[k].Value)
+
+// ---- RENAME key newkey: newkey holds what key held; key is gone (renaming a key to itself changes nothing).
+//@ func handleRename props C01,C12
+//@   requires henv(params) && $srv.store[dbof(params.Context)] != nil
+//@   assumes own-cmd: len(params.Command) >= 2 ==> disjointarr(params.Command, $srv.keysWithExpiry.keys[dbof(params.Context)])
+//@   ensures {C01} arity: len(params.Command) != 3 ==> result1 != nil
+//@   ensures {C01} missing: len(params.Command) == 3 && gval0(params) == nil ==> result1 != nil
+//@   ensures {C01} renamed: result1 == nil ==> gval0(params) != nil && has(gstore(params), garg(params, 2)) && gstore(params)[garg(params, 2)].Value == gval0(params) && (garg(params, 1) != garg(params, 2) ==> !has(gstore(params), garg(params, 1)))
+//@   ensures {C01,C20} otherkeys: forall k string :: k != garg(params, 1) && k != garg(params, 2) && has(gstore(params), k) ==> old(has(gstore(params), k)) && gstore(params)[k].Value == old(gstore(params)[k].Value)
+
+// ---- GETDEL key: replies the value and removes the key.
+//@ func handleGetdel props C01,C12
+//@   requires henv(params) && $srv.store[dbof(params.Context)] != nil
+//@   assumes own-cmd: len(params.Command) >= 2 ==> disjointarr(params.Command, $srv.keysWithExpiry.keys[dbof(params.Context)])
+//@   ensures {C01} arity: len(params.Command) != 2 ==> result1 != nil
+//@   ensures {C01} missing: len(params.Command) == 2 && !old(glive(params, gkey(params))) ==> result1 == nil && bstr(result0) == "$-1\r\n"
+//@   ensures {C01} deleted: result1 == nil && old(glive(params, gkey(params))) ==> !has(gstore(params), gkey(params))
+//@   ensures {C01} string: result1 == nil && old(glive(params, gkey(params))) && isstr(gval0(params)) ==> bstr(result0) == "+" ++ (asstr(gval0(params)) ++ "\r\n")
+//@   ensures {C01,C20} otherkeys: forall k string :: k != gkey(params) && has(gstore(params), k) ==> old(has(gstore(params), k)) && gstore(params)[k] == old(gstore(params)[k])
+
+// ---- FLUSHDB / FLUSHALL: empties the database of the connection / every database.
+//@ func handleFlush props C01,C20,C12
+//@   requires henv(params) && $srv.store[dbof(params.Context)] != nil && inv($srv, present)
+//@   ensures {C01} arity: len(params.Command) != 1 ==> result1 != nil
+//@   ensures {C01,C20} flushdb: len(params.Command) == 1 && lower(garg(params, 0)) != lower("flushall") ==> result1 == nil && (forall k string :: !has(gstore(params), k))
+//@   ensures {C01,C20} flushdb-others: len(params.Command) == 1 && lower(garg(params, 0)) != lower("flushall") ==> (forall d int, k string :: d != dbof(params.Context) ==> (has($srv.store[d], k) <==> old(has($srv.store[d], k))) && $srv.store[d][k] == old($srv.store[d][k]))
+//@   ensures {C01,C20} flushall: len(params.Command) == 1 && lower(garg(params, 0)) == lower("flushall") ==> result1 == nil && (forall d int, k string :: has($srv.store, d) ==> !has($srv.store[d], k))
